@@ -2167,11 +2167,12 @@ class Model:
         *,
         variables: pd.DataFrame,
         include_readouts: bool,
-    ) -> dict[float, dict[str, float]]:
+    ) -> list[dict[str, float]]:
         if (cache := self._cache) is None:
             cache = self._create_cache()
 
-        args_by_time = {}
+        # One entry per row: two rows may carry the same time stamp
+        args_by_row = []
         for time, values in variables.iterrows():
             args = self._get_args(
                 variables=values.to_dict(),
@@ -2181,8 +2182,8 @@ class Model:
             if include_readouts:
                 for name, ro in self._readouts.items():  # FIXME: order?
                     ro.calculate_inpl(name, args)
-            args_by_time[time] = args
-        return args_by_time
+            args_by_row.append(args)
+        return args_by_row
 
     def get_args_time_course(
         self,
@@ -2231,8 +2232,9 @@ class Model:
                 variables=variables,
                 include_readouts=include_readouts,
             ),
+            index=variables.index,
             dtype=float,
-        ).T
+        )
 
         return args.loc[
             :,
@@ -2441,14 +2443,16 @@ class Model:
             cache = self._create_cache()
         var_names = self.get_variable_names()
 
-        rhs_by_time = {}
-        for time, variables in args.iterrows():
-            rhs_by_time[time] = self._get_right_hand_side(
+        # One entry per row: two rows may carry the same time stamp
+        rhs_by_row = [
+            self._get_right_hand_side(
                 args=variables.to_dict() | {"time": time},
                 var_names=var_names,
                 cache=cache,
             )
-        return pd.DataFrame(rhs_by_time).T
+            for time, variables in args.iterrows()
+        ]
+        return pd.DataFrame(rhs_by_row, index=args.index)
 
     ##########################################################################
     # Check units
